@@ -168,7 +168,9 @@ impl Drop for LogSuppressLock {
     fn drop(&mut self) {
         let mut lock = CURRENT_LOG.write().unwrap();
         if let Some(log) = lock.as_mut() {
-            log.suppress_count -= 1;
+            // the log may have been restarted (log_finish; log_start) by another thread since this lock was
+            // taken: its count is 0 then, and panicking here would poison CURRENT_LOG for the whole process
+            log.suppress_count = log.suppress_count.saturating_sub(1);
         }
     }
 }
